@@ -63,7 +63,11 @@ def judge(report, module, events, chunk=60000, timeout=1500, relevant=None):
             if cl and relevant is not None and e.get("expect") != "reject":
                 if "OUTDOM" in cl:
                     raise MachineryError(f"input outside the oracle's exact domain: {json.dumps(e)[:800]}")
-                cl = cl & relevant      # clauses that belong to other properties are judged by their own checks
+                other = cl - relevant   # clauses judged by other checks, or conformance-only observations
+                for c in other:
+                    report.extra.setdefault("clauses_not_counted_as_violation", {}).setdefault(c, 0)
+                    report.extra["clauses_not_counted_as_violation"][c] += 1
+                cl = cl & relevant
             if e.get("expect") == "reject":
                 if not cl:
                     raise MachineryError(f"rejection self-test was accepted: {json.dumps(e)[:600]}")
